@@ -143,6 +143,9 @@ MkTWCC(count, chunks, deltas, p) ==
   IN  [v0 EXCEPT !.hdr = [p |-> p /\ PadTWCC(v0) > 0, c |-> 15, t |-> 205, len |-> SizeTWCC(v0) \div 4 - 1]]
 TWCCShapes ==
   { MkTWCC(0, << >>, << >>, FALSE),
+    \* an even number of chunks and no deltas: the last chunk ends exactly where the packet ends
+    MkTWCC(2, << Rl(0, 1), Rl(0, 1) >>, << >>, FALSE),
+    MkTWCC(20, << Rl(0, 3), Sv1(<< 0, 0, 0 >>), Rl(0, 2), Sv2(<< 0 >>) >>, << >>, FALSE),
     MkTWCC(1, << Rl(0, 1) >>, << >>, FALSE),
     MkTWCC(1, << Rl(1, 1) >>, << Dl(1, 7) >>, FALSE),
     MkTWCC(1, << Rl(1, 1) >>, << Dl(1, 7) >>, TRUE),
